@@ -8,7 +8,7 @@ T = []
 
 FMT = "alloc::fmt::format stubbed (returns empty String): message texts are outside the claim"
 TRACING = "tracing macros are no-ops (shim crate); log arguments are not evaluated"
-HTTPH = "http::HeaderMap hash function replaced by a constant (all keys collide; probing/robin-hood code is real)"
+HTTPH = "http::HeaderMap replaced by the Vec-backed model /verif/shims/http-model/map.rs (linear search, same public API; HeaderName/HeaderValue are the real http code)"
 VBYTES = "bytes::{Bytes,BytesMut} replaced by the Vec-backed model /verif/shims/vbytes (Buf/BufMut traits are the original files)"
 
 
@@ -24,7 +24,9 @@ def H(name, props, config, file, harness_file, obligation, functions, bounds, ti
     T.append(d)
 
 
-UW_MAPS = [("drop_glue::<[http::header::map::Bucket<", 3), ("drop_glue::<[http::header::map::ExtraValue<", 2)]
+UW_MAPS = [("function http::HeaderMap::find_name", 5), ("function http::HeaderMap::len", 5), ("function http::HeaderMap::<", 5),
+           ("drop_glue::<[http::header::map::Group<", 5), ("drop_glue::<[http::HeaderValue]>", 4),
+           ("drop_glue::<[(std::option::Option<http::HeaderName>, http::HeaderValue)]>", 6)]
 
 DEC = ("tonic/src/codec/decode.rs", "tonic/codec_decode.rs")
 DEC_FUNCS = ["tonic::codec::decode::StreamingInner::decode_chunk"]
@@ -168,6 +170,9 @@ for nm in ("te", "user_agent", "content_type", "grpc_status", "grpc_message", "g
 H("md_typed_access", ["C08"], "core", *MM, cap_s=900, stubs=[HTTPH],
   obligation="M4: a one-entry map with key 'x-a' / 'x-a-bin': exactly the accessor (get / get_bin / iter variant) of its kind sees the entry",
   functions=["MetadataMap::{get,get_bin,iter}"], bounds="2 keys (ASCII, binary)")
+
+for nm in ("probe_fhm_concrete", "probe_clone_remove3"):
+    H(nm, ["PROBE"], "core_vb", *ST, cap_s=900, unwind=6, unwindset=UW_MAPS + [("function memcmp", 24)], obligation="measurement probe", functions=[], bounds="")
 
 
 def select(pid, tier, seed=0):
